@@ -13,7 +13,7 @@ from collections import Counter
 from copy import deepcopy
 
 from . import models as M
-from .labels import canon, csort, dec, enc
+from .labels import canon, csort, dec, enc, refresh
 from .snap import (counts_consistent, digest_form, integrity, kind_of, simplicial_invariants,
                    snapshot, structural_key)
 from .streams import Dying, OneShot, StreamDied, container
@@ -249,9 +249,26 @@ def _payload(i, a, fault):
     return d
 
 
-def _bunch_undirected(fmt, items, mtype, fault=None):
-    """items: [(members(list), idx, eattr)] -> python bunch in xgi's format `fmt`."""
+def _bunch_undirected(fmt, items, mtype, fault=None, share=False):
+    """items: [(members(list), idx, eattr)] -> python bunch in xgi's format `fmt`.
+    share: consecutive items with equal content are handed the *same* container / dict object (a
+    caller that builds its bunch from one object, e.g. dict.fromkeys(ids, members))."""
+    cache = {}
+
     def cont(i, mem):
+        c = _cont(i, mem)
+        if share and i >= 1 and not hasattr(c, "__next__"):
+            key = ("m", type(c).__name__, repr(list(mem)))
+            return cache.setdefault(key, c)
+        return c
+
+    def pay(i, a):
+        d = _payload(i, a, fault)
+        if share and i >= 1 and isinstance(d, dict):
+            return cache.setdefault(("a", repr(sorted(d.items(), key=repr))), d)
+        return d
+
+    def _cont(i, mem):
         mem = list(mem)
         mt = mtype
         if i == 0 and fmt == 1:
@@ -270,9 +287,9 @@ def _bunch_undirected(fmt, items, mtype, fault=None):
     if fmt == 2:
         return [(cont(i, m), idx) for i, (m, idx, _) in enumerate(items)]
     if fmt == 3:
-        return [(cont(i, m), _payload(i, a, fault)) for i, (m, _, a) in enumerate(items)]
+        return [(cont(i, m), pay(i, a)) for i, (m, _, a) in enumerate(items)]
     if fmt == 4:
-        return [(cont(i, m), idx, _payload(i, a, fault)) for i, (m, idx, a) in enumerate(items)]
+        return [(cont(i, m), idx, pay(i, a)) for i, (m, idx, a) in enumerate(items)]
     if fmt == 5:
         return {idx: cont(1, m) for (m, idx, _) in items}
     raise ValueError(fmt)
@@ -448,7 +465,7 @@ def build(kind, op, a, fault):
                     info["relaxed"] = False
                 else:
                     fault = dict(fault, item=1 + fault.get("item", 0) % (len(items) - 1))
-            bunch = _bunch_undirected(fmt, items, a.get("mtype", "list"), fault)
+            bunch = _bunch_undirected(fmt, items, a.get("mtype", "list"), fault, share=bool(a.get("share")))
             mitems, dying = _dying_prefix(items, fault)
             if fault and fault.get("kind") == "attr_junk":
                 # the junk payload must be rejected: items before it are applied (relaxed judge)
@@ -583,9 +600,16 @@ def build(kind, op, a, fault):
                 else:
                     info["relaxed"] = False
 
+            dcache = {}
+
             def mk(i, t, h):
                 m = mt if i > 0 else ("list" if mt == "iter" else mt)
-                return (container(t, m), container(h, m))
+                ct, ch = container(t, m), container(h, m)
+                if a.get("share") and i >= 1 and m != "iter":
+                    # equal tails / heads of later items are the *same* object
+                    ct = dcache.setdefault((m, repr(t)), ct)
+                    ch = dcache.setdefault((m, repr(h)), ch)
+                return (ct, ch)
 
             if fmt == 1:
                 bunch = [mk(i, t, h) for i, ((t, h), _, _) in enumerate(items)]
@@ -797,7 +821,10 @@ def exec_mutation(world, actor, rec):
     fault = rec.get("fault")
     a = {k: dec(v) for k, v in rec["args"].items()}
     call, mop, margs, info = build(actor.kind, op, a, fault)
-    margs = deepcopy(margs)  # the SUT's argument objects are changed after the call (poison_args)
+    # the SUT's argument objects are changed after the call (poison_args); and the model's labels are
+    # equal to the SUT's but not the same objects (queries built from model labels then never
+    # hand xgi the very object it stores)
+    margs = refresh(margs)
     pre = actor.snap
     iprop = INTEGRITY_PROP[actor.kind]
     world.stats["op:" + actor.kind + "." + op] += 1
@@ -820,6 +847,7 @@ def exec_mutation(world, actor, rec):
         except Exception as ex:  # noqa
             exc = ex
     warns = real_warnings(wl)
+    actor.last_raised = exc is not None  # (the scheduler biases the next step on this actor)
     world.last_exc = exc
     post, anomalies = snapshot(actor.sut)
     if recorder is not None and recorder.captured and exc is None:
@@ -864,11 +892,20 @@ def exec_mutation(world, actor, rec):
                 world.stats["sc_closure_suspended_after_raise"] += 1
             if exc is None and op in ("close", "clear") or not sc_bad:
                 actor.sc_dirty = False
+    extra_tags = set()
+    if bad and op in ADD_OPS and op != "add_node_to_edge":
+        # C04, stated independently of everything else: an addition never alters an existing edge
+        try:
+            if any(e in post["members"] and not eqm(pre["members"][e], post["members"][e]) for e in pre["edges"]):
+                extra_tags.add("C04")
+        except Exception:
+            pass
     for clause, detail in bad:
         # (a state that breaks the incidence invariants cannot equal any state of the reference
         # model either, so the refinement property C05 is violated by the same step)
-        world.find({"C06"} if clause.endswith("view_not_live") else {iprop, "C05"}, clause, rec, actor.kind,
-                   f"after {'raising ' + type(exc).__name__ if exc else 'returning'}: {detail}")
+        world.find({"C06"} if clause.endswith("view_not_live") else {iprop, "C05"} | extra_tags, clause, rec, actor.kind,
+                   f"after {'raising ' + type(exc).__name__ if exc else 'returning'}: {detail}"
+                   + (" [an existing edge was altered by the addition]" if extra_tags else ""))
     if bad:
         actor.snap = post
         return False
